@@ -53,8 +53,8 @@ OBS_BUILTINS_SP = ['werror', 'warning_level', 'default_library']
 X_D1 = 'remove an option that has a recorded -D value (known defect removed-option/recorded-D-blocks-reconfigure)'
 X_D2 = 'setup --reconfigure -D on an option whose declaration has an unprocessed edit (known defect reconfigure-D/stale-declarations)'
 X_D3 = 'choices/range edit on an option of a yielding pair (known defects choices-change/yielding-*)'
-X_D4 = 'type change of an existing option (known defect type-change/old-type-kept)'
-X_D5 = 'after a failed --wipe only a --wipe retry is generated (known defect failed-wipe/setup-drops-recorded-cmdline)'
+X_D4 = '(class lifted: repaired by fix e4865fa)'
+X_D5 = '(class lifted: repaired by fix 74f3a99)'
 X_D8 = ('meson configure -Dsp:opt=v where v equals the global builtin value / the value stored under an inheriting option '
         '(known defect configure/override-equal-to-hidden-value-not-persisted)')
 X_D7 = 'failure injected after coredata was written (post-conf script) (known defect failed-reconfigure/postconf-failure-leaks-values)'
@@ -234,8 +234,8 @@ def excluded(m: LifeModel, op: dict) -> T.Optional[str]:
             if key in m.recorded:
                 return X_D1
             return None
-        if op['decl']['type'] != cur['type']:
-            return X_D4
+        if op['decl']['type'] != cur['type'] and (name in YIELD_PAIR_NAMES or in_yield_pair(m, proj, name)):
+            return X_D3           # (a pair whose two sides have different types is not a pair any more)
         if k == 'yield' and name not in YIELD_PAIR_NAMES:
             return X_PAIR
         if k == 'choices' and (name in YIELD_PAIR_NAMES or in_yield_pair(m, proj, name)):
@@ -247,7 +247,7 @@ def excluded(m: LifeModel, op: dict) -> T.Optional[str]:
     if inj and inj['kind'] == 'postconf':
         return X_D7
     if m.state == 'wiped':
-        return None if o == 'wipe' else X_D5
+        return None
     if m.state == 'fresh':
         return None if o == 'setup' else X_STATE
     # configured
